@@ -854,6 +854,7 @@ class ArrayOf(DataType):
 
     def import_value(self, value):
         """returns a python object from serialisation"""
+        self.check_type(value)
         return tuple(self.members.import_value(elem) for elem in value)
 
     def format_value(self, value, unit=True):
@@ -947,6 +948,7 @@ class TupleOf(DataType):
 
     def import_value(self, value):
         """returns a python object from serialisation"""
+        self.check_type(value)
         return tuple(sub.import_value(elem) for sub, elem in zip(self.members, value))
 
     def format_value(self, value, unit=True):
